@@ -140,9 +140,12 @@ def run(ck: Check, prog: Program) -> None:
                 ck.finding('ERR-PAYLOAD', b.qualname, 'non-string validation error payload', b.module.rel, x.lineno, f'`{norm(x.exc)}`')
     # the exclusion set the dispatcher hands to validate_method is a collection of parameter names (a bare string would turn the
     # `name in exclude` test of signature() into a substring test: parameters whose names are substrings of it are dropped)
-    from .c04 import bind_methods
+    from .c04 import _bind_strict, bind_methods
     from .c17 import exclude_expr
     from .common import kwarg as _kw
+    # "executed iff its arguments bind to the signature": Signature.bind over the filtered signature, whose kept parameters are
+    # the method's own Parameter objects
+    _bind_strict(ck, prog)
     for b_ in bind_methods(prog):
         if b_.cls is not None and b_.cls.name == 'Method':
             for x in walk_own(b_.node):
@@ -221,6 +224,46 @@ def _signature_filter(ck: Check, prog: Program) -> None:
     if not (ok and rep):
         ck.finding('EXCL-AGREE', sig.qualname, 'exclusion formula', sig.module.rel, sig.node.lineno,
                    f'signature() must keep a parameter iff name ∉ exclude ∧ ¬exclude_param(name, annotation, default); found: {why}')
+    from .c17 import excluded_names_not_lazy
+    excluded_names_not_lazy(ck, prog)
+    _json_type_overrides(ck, prog)
+
+
+JSON_TYPE_CLASSES = {'array': {'list', 'tuple'}, 'object': {'dict'}, 'string': {'str'}, 'integer': {'int'}, 'number': {'int', 'float'},
+                     'boolean': {'bool'}, 'null': {'NoneType'}}
+
+
+def _json_type_overrides(ck: Check, prog: Program) -> None:
+    """VALID-SUBJECT (what counts as which JSON type): the Python classes the jsonschema validator is told to accept for a JSON type
+    are containers of that kind only — `array` may be list / tuple (what the binder produces for *args), never an abstract class
+    such as Sequence / Iterable, which a JSON string satisfies too."""
+    n = 0
+    for f in prog.iter_funcs():
+        if not f.module.name.startswith('pjrpc.server.validators.jsonschema'):
+            continue
+        for x in walk_own(f.node):
+            if not isinstance(x, ast.Dict):
+                continue
+            for k, v in zip(x.keys, x.values):
+                if not (isinstance(k, ast.Constant) and k.value in JSON_TYPE_CLASSES):
+                    continue
+                elts = v.elts if isinstance(v, (ast.Tuple, ast.List)) else [v]
+                names = []
+                for e in elts:
+                    ent = prog.resolve(f.module, e)
+                    names.append(ent if isinstance(ent, str) else getattr(ent, 'qualname', None) or norm(e))
+                if not all(isinstance(e, (ast.Name, ast.Attribute)) for e in elts):
+                    continue
+                n += 1
+                extra = [nm for nm in names if nm.rsplit('.', 1)[-1] not in JSON_TYPE_CLASSES[k.value] or
+                         ('.' in nm and not nm.startswith('builtins.'))]
+                ck.ob('VALID-SUBJECT', f'{short(f.qualname)}: JSON type {k.value!r} is checked against {names}', not extra)
+                if extra:
+                    ck.finding('VALID-SUBJECT', f.qualname, f'JSON type {k.value!r} accepts {extra}', f.module.rel, x.lineno,
+                               f'`{norm(x)[:80]}` makes the schema keyword type: {k.value} accept instances of {extra}: values of another JSON '
+                               f'type satisfy it (a JSON string is a Sequence / Iterable / Sized), so a call that does not conform to the '
+                               f'schema is executed')
+    ck.require('VALID-SUBJECT', 'JSON type overrides of the jsonschema validator', n, 1)
 
 
 def _pyd_validate_method(prog: Program):
@@ -322,6 +365,13 @@ def _encoder(ck: Check, prog: Program) -> None:
 
 
 MUTANTS = [
+    dict(name='array-type-widened-to-sequence', file='pjrpc/server/validators/jsonschema.py',
+         find="kwargs.setdefault('types', {'array': (list, tuple)})", replace="kwargs.setdefault('types', {'array': (list, tuple, str)})",
+         expect='VALID-SUBJECT'),
+    dict(name='kept-parameters-made-positional-or-keyword', file='pjrpc/server/validators/base.py',
+         find='        return signature.replace(parameters=method_parameters)',
+         replace='        return signature.replace(parameters=[p.replace(kind=p.POSITIONAL_OR_KEYWORD) for p in method_parameters])',
+         expect='BIND-STRICT'),
     dict(name='jsonschema-validate-before-bind', file='pjrpc/server/validators/jsonschema.py',
          find='''        arguments = super().validate_method(method, params, exclude)
 
